@@ -681,7 +681,7 @@ def make_configs(cirq, mods):
 
 
 # --------------------------------------------------------------------------------------------------------------------
-def run_case(ctx, cirq, cfg, circuit, kind, deep, ignore, checks, case_no):
+def run_case(ctx, cirq, cfg, circuit, kind, deep, ignore, checks, case_no, prng_seed=None):
     """Runs one transformer configuration on one circuit; python oracles immediately, Coq checks appended to `checks`."""
     import random
     rng = random.Random(f'{ctx.seed}:{case_no}')        # per-case stream: a case replays alone
@@ -693,7 +693,7 @@ def run_case(ctx, cirq, cfg, circuit, kind, deep, ignore, checks, case_no):
     arg = frozen_copy if frozen_copy is not None else circuit
     if getattr(cfg, 'probe', None) is not None:
         cfg.probe.saw_ignored = False
-    rep['prng_seed'] = rng.randrange(1 << 30)
+    rep['prng_seed'] = rng.randrange(1 << 30) if prng_seed is None else prng_seed
     GAUGE_SEED[0] = rep['prng_seed']
     try:
         out = cfg.call(arg, context)
@@ -960,6 +960,69 @@ def root_cause(cirq, cfg, circuit, out, deep):
     return '+'.join(f)
 
 
+def symbolized_stream(ctx, cirq, checks, case_no, n):
+    """merge_single_qubit_gates_to_phxz_symbolized (and through it symbolize_single_qubit_gates_by_indexed_tags): the returned
+    circuit resolved with the i-th returned resolver must mean the same as the input resolved with the i-th input resolver."""
+    import random
+    t = cirq.transformers
+    for k in range(n):
+        rng = random.Random(f'{ctx.seed}:symbolized:{k}')
+        c = gen_param(cirq, rng)
+        if rng.random() < 0.4:
+            c.append(cirq.measure(*sorted(c.all_qubits())[:1], key='m'))
+        names = sorted(cirq.parameter_names(c))
+        if not names:
+            continue
+        sweep = cirq.Zip(*[cirq.Points(key=nm, points=[round(rng.uniform(-1.5, 1.5), 3) for _ in range(3)]) for nm in names])
+        cfg = Cfg('merge_single_qubit_gates_to_phxz_symbolized', '', None, 'special')
+        rep = dict(config=cfg.id, deep=False, ignore=False, circuit=repr(c), diagram=str(c), circuit_kind='param', sweep=repr(sweep))
+        before = snapshot(cirq, c)
+        try:
+            out, new_sweep = t.merge_single_qubit_gates_to_phxz_symbolized(c, sweep=sweep)
+        except Exception as e:
+            import traceback
+            ctx.violation(f'{cfg.name}:raises:{type(e).__name__}:{error_class(str(e))}', f'{cfg.id} raised {type(e).__name__}: {str(e)[:300]} on\n{c}\nsweep {sweep!r}',
+                          dict(kind='raises', error=traceback.format_exc()[-1500:], **rep))
+            continue
+        if snapshot(cirq, c) != before:
+            ctx.violation(f'{cfg.name}:input-modified', f'{cfg.id} modified its argument on\n{c}', dict(kind='input-modified', **rep))
+        res_in, res_out = list(sweep), list(new_sweep)
+        if len(res_in) != len(res_out):
+            ctx.violation(f'{cfg.name}:sweep-length', f'{cfg.id}: returned sweep has {len(res_out)} resolvers for {len(res_in)} input resolvers on\n{c}', dict(kind='sweep', **rep))
+            continue
+        for i, (ri, ro) in enumerate(zip(res_in, res_out)):
+            case_no += 1
+            try:
+                ci, co = cirq.resolve_parameters(c, ri), cirq.resolve_parameters(out, ro)
+                if cirq.is_parameterized(co):
+                    ctx.violation(f'{cfg.name}:unresolved-symbols', f'{cfg.id}: the returned sweep does not resolve {sorted(cirq.parameter_names(co))} on\n{c}\noutput\n{out}', dict(kind='sweep', **rep))
+                    break
+                expr, kind = semantic_check(cirq, rng, flatten_ops(cirq, ci), flatten_ops(cirq, co), 'same')
+            except opsem.Unsupported:
+                continue
+            checks.append(dict(case=case_no, what='semantics', stream=f'{cfg.id}:{kind}', expr=expr, cfg=cfg, desc=f'{cfg.id} resolver {i} on {str(c)[:400]}',
+                               rep=dict(rep, output=repr(out), output_diagram=str(out), resolver_index=i, new_sweep=repr(new_sweep), root_cause='')))
+            ctx.count(cfg.id, [rep['circuit'], i], True, sample=dict(transformer=cfg.id, circuit=str(c)[:300], output=str(out)[:300], resolver=i))
+    return case_no
+
+
+def randomized_measurements_stream(ctx, cirq, n):
+    """RandomizedMeasurements changes the measured basis by design: only `the argument is not modified` applies."""
+    import random
+    for k in range(n):
+        rng = random.Random(f'{ctx.seed}:randmeas:{k}')
+        c = gen_unitary(cirq, rng, max_ops=6)
+        before = snapshot(cirq, c)
+        try:
+            cirq.transformers.RandomizedMeasurements()(c, rng=np.random.default_rng(k))
+        except Exception as e:
+            ctx.violation(f'RandomizedMeasurements:raises:{type(e).__name__}:{error_class(str(e))}', f'RandomizedMeasurements raised {type(e).__name__}: {e} on\n{c}', dict(kind='raises', circuit=repr(c)))
+            continue
+        if snapshot(cirq, c) != before:
+            ctx.violation('RandomizedMeasurements:input-modified', f'RandomizedMeasurements modified its argument on\n{c}', dict(kind='input-modified', circuit=repr(c)))
+        ctx.count('RandomizedMeasurements:input-unchanged', repr(c), False)
+
+
 def gauge_sweep_stream(ctx, cirq, mods, checks, case_no):
     """Every branch of every gauge selector (scripted prng, DFS over its choices) on one target gate between random 1q gates."""
     import random
@@ -1038,6 +1101,8 @@ def run(ctx):
             case_no += 1
             run_case(ctx, cirq, cfg, circuit, kind, deep, ignore, checks, case_no)
     case_no = gauge_sweep_stream(ctx, cirq, mods, checks, case_no)
+    case_no = symbolized_stream(ctx, cirq, checks, case_no, 8 * mult)
+    randomized_measurements_stream(ctx, cirq, 5 * mult)
     failed = evaluate(ctx, checks)
     report(ctx, checks, failed)
     ctx.cov['programs'] = case_no
@@ -1046,5 +1111,51 @@ def run(ctx):
 
 
 def replay(ctx, data):
-    print('replay: re-run `VERIF_SEED=%s ./check C06`; the case (repr of the circuit, options, output) is stored in the file' % data.get('seed'))
-    return False
+    """Re-runs the single stored case (circuit rebuilt from its repr, same transformer configuration, options and prng seed) through
+    the same oracles and the same Coq comparison; True iff the property holds on it."""
+    import sympy
+    mods = env.import_cirq(('cirq_google',))
+    cirq = mods['cirq']
+    if data.get('kind') == 'broken' or 'circuit' not in data:
+        print('replay: this file names obligations that no longer check, not an input:', [b.get('name') for b in data.get('broken', [])])
+        return False
+    ns = dict(cirq=cirq, np=np, numpy=np, sympy=sympy, cirq_google=mods['cirq_google'])
+    circuit = eval(data['circuit'], ns)
+    checks = []
+    cid = data.get('config', '')
+    if data.get('circuit_kind') == 'gauge-sweep':
+        from ..scripted import ScriptedSeed
+        import random
+        class GaugeSeed(ScriptedSeed):
+            def random(self, size=None):
+                return self.inner.random()
+        t, gc = cirq.transformers, cirq.transformers.gauge_compiling
+        trs = {'CZGaugeTransformer': t.CZGaugeTransformer, 'SqrtCZGaugeTransformer': t.SqrtCZGaugeTransformer, 'CPhaseGaugeTransformer': gc.CPhaseGaugeTransformer,
+               'SpinInversionGaugeTransformer': t.SpinInversionGaugeTransformer, 'ISWAPGaugeTransformer': t.ISWAPGaugeTransformer,
+               'SqrtISWAPGaugeTransformer': t.SqrtISWAPGaugeTransformer, 'SYCGaugeTransformer': mods['cirq_google'].transformers.SYCGaugeTransformer}
+        seed = GaugeSeed(data['gauge_script'])
+        seed.inner = random.Random(0)
+        out = trs[cid.split('[')[0]](circuit, prng=seed)
+        expr, kind = semantic_check(cirq, random.Random(0), flatten_ops(cirq, circuit), flatten_ops(cirq, out), 'same')
+        checks.append(dict(case=0, what='semantics', stream=f'{cid}:{kind}', expr=expr, cfg=Cfg(cid.split('[')[0], 'every gauge', None, 'semantic'), rep=dict(data, output_diagram=str(out)), desc=cid))
+    elif cid.startswith('merge_single_qubit_gates_to_phxz_symbolized'):
+        sweep = eval(data['sweep'], ns)
+        out, new_sweep = cirq.transformers.merge_single_qubit_gates_to_phxz_symbolized(circuit, sweep=sweep)
+        import random
+        for i, (ri, ro) in enumerate(zip(sweep, new_sweep)):
+            expr, kind = semantic_check(cirq, random.Random(i), flatten_ops(cirq, cirq.resolve_parameters(circuit, ri)), flatten_ops(cirq, cirq.resolve_parameters(out, ro)), 'same')
+            checks.append(dict(case=i, what='semantics', stream=f'{cid}:{kind}', expr=expr, cfg=Cfg(cid, '', None, 'special'), rep=dict(data, output_diagram=str(out)), desc=cid))
+    else:
+        cfg = next((c for c in make_configs(cirq, mods) if c.id == cid), None)
+        if cfg is None:
+            print('replay: unknown transformer configuration', cid)
+            return False
+        run_case(ctx, cirq, cfg, circuit, data.get('circuit_kind', '?'), bool(data.get('deep')), bool(data.get('ignore')), checks, 0, prng_seed=data.get('prng_seed'))
+    failed = evaluate(ctx, checks)
+    for i in sorted(failed):
+        print('replay: Coq check fails:', checks[i]['stream'])
+    for v in ctx.violations:
+        print('replay: oracle fails:', v['signature'])
+    for k in ctx.known_hits:
+        print('replay: oracle fails (recorded finding):', k['signature'])
+    return not failed and not ctx.violations and not ctx.known_hits
